@@ -3,7 +3,7 @@
    unlocked deposits (multi- and single-asset), bank sends, block changes and rejected operations is exactly the initial
    excess plus the tokens sent to it by plain bank sends plus one unit per accepted odd single-asset deposit. *)
 From MD.Model Require Import Base Ownable Epoch PoolMath Types PoolManager FarmManager Chain.
-From MD.Proofs Require Import LockedExcess SingleLockedExcess CreateExcess FarmSideExcess Tactics Arith PoolMathProofs MapLemmas BankProofs SwapProofs ChainProofs PmProofs PmChainProofs LiquidityProofs
+From MD.Proofs Require Import LockedExcess SingleLockedExcess CreateExcess FarmSideExcess FarmRefundExcess Tactics Arith PoolMathProofs MapLemmas BankProofs SwapProofs ChainProofs PmProofs PmChainProofs LiquidityProofs
   AtomicProofs PoolCustody PoolCustodyChain SingleSided TxBalances TxExcess.
 
 Definition asset_denom (d : string) : Prop := forall id, d <> lp_of_id id.
@@ -16,7 +16,7 @@ Definition covered_op (o : op) : Prop :=
   | Tx sender target m funds =>
       sender <> PM /\
       ((target = EM \/ target = FC) \/        (* the epoch manager and the fee collector: no concern of the pool manager *)
-       (target = FM /\ match m with WFm fm => fm_covered fm | _ => False end) \/     (* claims, positions, farm expansions, configuration *)
+       (target = FM /\ match m with WFm _ => True | _ => False end) \/               (* every farm-manager message *)
       target = PM /\
       match m with
       | WPm (PmSwap _ _ _ r _) | WPm (PmRoute _ _ r _) | WPm (PmProvide _ _ r _ None _) => r <> Some PM
@@ -28,7 +28,8 @@ Definition covered_op (o : op) : Prop :=
       end)
   end.
 Definition ok_state (w : world) : Prop :=
-  pm_fee_collector (pm_cfg (w_pm w)) <> PM /\ pm_farm_manager (pm_cfg (w_pm w)) = FM /\ lp_inv (w_pm w) /\ fees_small w.
+  pm_fee_collector (pm_cfg (w_pm w)) <> PM /\ pm_farm_manager (pm_cfg (w_pm w)) = FM /\ lp_inv (w_pm w) /\ fees_small w /\
+  fm_payees_ok (w_fm w).
 
 (* what an operation adds to the excess: only donations and the odd unit of an accepted single-asset deposit *)
 Definition gift (w : world) (o : op) (d : string) : Z :=
@@ -75,7 +76,7 @@ Lemma step_excess w o d :
   covered_op o -> ok_state w -> asset_denom d ->
   slackP (fst (step w o)) d = slackP w d + gift w o d.
 Proof.
-  intros Hc (Hfc & Hfmc & Hlp & Hsmall) Hd. unfold gift.
+  intros Hc (Hfc & Hfmc & Hlp & Hsmall & Hpay) Hd. unfold gift.
   destruct o as [b|sender target m funds|from to amount|k]; cbn [step covered_op] in *.
   - cbn [fst snd]. unfold slackP. cbn [w_bank w_pm set_block]. lia.
   - destruct Hc as (Hs & [Hother | [(-> & Hfmm) | (-> & Hm)]]).
@@ -89,7 +90,7 @@ Proof.
       destruct Hother as [->| ->]; cbn [String.eqb EM FC PM FM Ascii.eqb Bool.eqb] in Eh; discriminate. }
     { destruct m as [| | |fm]; try contradiction.
       destruct (run_tx w sender FM (WFm fm) funds) as [w'|e] eqn:E; cbn [fst snd]; [|rewrite slackP_set_fault; lia].
-      rewrite slackP_set_fault, (fm_tx_excess _ _ _ _ _ Hs Hfmm E d). lia. }
+      rewrite slackP_set_fault, (any_fm_tx_excess _ _ _ _ _ Hs Hpay E d). lia. }
     destruct (run_tx w sender PM m funds) as [w'|e] eqn:E; cbn [fst snd]; [|rewrite slackP_set_fault; lia].
     rewrite slackP_set_fault.
     destruct m as [| |pm|]; try contradiction.
@@ -183,6 +184,8 @@ Fixpoint fc_ok_run (w : world) (ops : list op) : bool :=
   match ops with
   | [] => true
   | o :: r => negb (String.eqb (pm_fee_collector (pm_cfg (w_pm w))) PM) && String.eqb (pm_farm_manager (pm_cfg (w_pm w))) FM &&
+              negb (String.eqb (fm_fee_collector (fm_cfg (w_fm w))) PM) &&
+              forallb (fun f => negb (String.eqb (f_owner f) PM)) (fm_farms (w_fm w)) &&
               fc_ok_run (fst (step w o)) r
   end.
 
@@ -191,10 +194,13 @@ Lemma good_run_intro ops : forall w,
 Proof.
   induction ops as [|o r IH]; intros w Hl Hpc Hc Hok Hf; cbn [good_run fc_ok_run] in *; [exact I|].
   inversion Hc as [|x xs Ho Hr]; subst. inversion Hok as [|x xs Ho2 Hr2]; subst.
-  apply andb_true_iff in Hf. destruct Hf as [Hf1 Hf2]. apply andb_true_iff in Hf1. destruct Hf1 as [Hf1 Hf3].
+  apply andb_true_iff in Hf. destruct Hf as [Hf Hf2]. apply andb_true_iff in Hf. destruct Hf as [Hf Hf5].
+  apply andb_true_iff in Hf. destruct Hf as [Hf Hf4]. apply andb_true_iff in Hf. destruct Hf as [Hf1 Hf3].
   split; [exact Ho|]. split.
   - split; [apply negb_true_iff in Hf1; apply String.eqb_neq in Hf1; exact Hf1|]. split; [apply String.eqb_eq; exact Hf3|].
-    split; [exact Hl|]. destruct Hpc as [[Hfs _] _]. exact Hfs.
+    split; [exact Hl|]. destruct Hpc as [[Hfs [_ Hfee]] _]. split; [exact Hfs|].
+    split; [apply negb_true_iff in Hf4; apply String.eqb_neq in Hf4; exact Hf4|]. split; [|exact Hfee].
+    intros f Hin. rewrite forallb_forall in Hf5. specialize (Hf5 f Hin). apply negb_true_iff in Hf5. apply String.eqb_neq in Hf5. exact Hf5.
   - apply IH; [| apply step_pool_custody; assumption | exact Hr | exact Hr2 | exact Hf2].
     change (fst (step w o)) with (run w [o]). apply run_lp_inv. exact Hl.
 Qed.
